@@ -26,8 +26,31 @@ import (
 const simhookSrc = `// Package simhook is injected by /verif/tools/instr through -overlay; it does not exist in the repository.
 package simhook
 
+import "runtime"
+
 // Hook is nil outside a simulation.
 var Hook func(site int)
+
+// BlockedHook, if set, is called by a task that found a lock taken (see Blocked).
+var BlockedHook func(site int)
+
+// Sim reports whether a simulation is running. Under a simulation, "X.Lock()" statements of instrumented code run as
+// "for !X.TryLock() { simhook_.Blocked(site) }": a task that finds the lock taken hands the baton on instead of
+// blocking in the runtime while it holds it. Outside a simulation the original statement runs.
+//
+//go:norace
+func Sim() bool { return Hook != nil }
+
+// Blocked is called in the TryLock loop each time the lock was found taken.
+//
+//go:norace
+func Blocked(site int) {
+	if h := BlockedHook; h != nil {
+		h(site)
+		return
+	}
+	runtime.Gosched()
+}
 
 // Yield is called before every statement of instrumented code.
 //
@@ -46,11 +69,37 @@ type insertion struct {
 	text string
 }
 
+// lockStmt recognises the statement forms "X.Lock()" and "X.RLock()" and returns the name of the matching Try method
+// and X. Types are not known here: a receiver without that method makes the instrumented build fail, and vsim then
+// instruments again with -locks=false.
+func lockStmt(s ast.Stmt) (string, ast.Expr) {
+	es, ok := s.(*ast.ExprStmt)
+	if !ok {
+		return "", nil
+	}
+	call, ok := es.X.(*ast.CallExpr)
+	if !ok || len(call.Args) != 0 {
+		return "", nil
+	}
+	sel, ok := call.Fun.(*ast.SelectorExpr)
+	if !ok {
+		return "", nil
+	}
+	switch sel.Sel.Name {
+	case "Lock":
+		return "TryLock", sel.X
+	case "RLock":
+		return "TryRLock", sel.X
+	}
+	return "", nil
+}
+
 func main() {
 	repo := flag.String("repo", "/repo", "tink-go tree")
 	out := flag.String("out", "", "directory for instrumented copies")
 	overlayPath := flag.String("overlay", "", "overlay JSON to write")
 	sitesPath := flag.String("sites", "", "site table (TSV) to write")
+	locks := flag.Bool("locks", true, "run X.Lock()/X.RLock() statements as TryLock loops under a simulation")
 	flag.Parse()
 	if *out == "" || *overlayPath == "" {
 		fmt.Fprintln(os.Stderr, "instr: -out and -overlay are required")
@@ -86,6 +135,7 @@ func main() {
 	var sites []string
 	siteID := 0
 	nFiles := 0
+	nLocks := 0
 	for _, f := range files {
 		src, err := os.ReadFile(f)
 		if err != nil {
@@ -107,6 +157,15 @@ func main() {
 				return
 			}
 			pos := fset.Position(s.Pos())
+			if try, recv := lockStmt(s); *locks && try != "" {
+				x := string(src[fset.Position(recv.Pos()).Offset:fset.Position(recv.End()).Offset])
+				ins = append(ins, insertion{off: pos.Offset, text: fmt.Sprintf("simhook_.Yield(%d); if simhook_.Sim() { for !(%s).%s() { simhook_.Blocked(%d) } } else { ", siteID, x, try, siteID)})
+				ins = append(ins, insertion{off: fset.Position(s.End()).Offset, text: " }"})
+				sites = append(sites, fmt.Sprintf("%d\t%s:%d", siteID, rel, pos.Line))
+				siteID++
+				nLocks++
+				return
+			}
 			ins = append(ins, insertion{off: pos.Offset, text: fmt.Sprintf("simhook_.Yield(%d); ", siteID)})
 			sites = append(sites, fmt.Sprintf("%d\t%s:%d", siteID, rel, pos.Line))
 			siteID++
@@ -180,7 +239,7 @@ func main() {
 			fail(err)
 		}
 	}
-	fmt.Printf("instr: %d files, %d yield sites\n", nFiles, siteID)
+	fmt.Printf("instr: %d files, %d yield sites, %d lock statements as TryLock loops\n", nFiles, siteID, nLocks)
 }
 
 func fail(err error) {
